@@ -86,3 +86,36 @@ Proof. repeat split; vm_compute; reflexivity. Qed.
 Lemma securejoin_source :
   sj_lib_max_symlinks = Z.of_nat sj_max_links /\ sj_lib_join_sha256 = sj_transcribed_sha256.
 Proof. split; reflexivity. Qed.
+
+(* Extract and Expand never create a link: any link afterwards was there before *)
+Lemma extract_creates_no_link_x t R s t' e :
+  Forall good_comp R -> linkfree t R -> (exists es, tget t R = Some (TDir es)) ->
+  extract_model t R s = (t', e) ->
+  forall q tg, tget t' q = Some (TLink tg) -> tget t q = Some (TLink tg).
+Proof. intros Hg Hn Hd H. now destruct (extract_confined_x t R s t' e Hg Hn Hd H) as (_ & _ & H3). Qed.
+
+Lemma expand_creates_no_link_x t R name fs t' e :
+  Forall good_comp R -> linkfree t R -> (exists es, tget t R = Some (TDir es)) ->
+  expand_model t R name fs = (t', e) ->
+  forall q tg, tget t' q = Some (TLink tg) -> tget t q = Some (TLink tg).
+Proof. intros Hg Hn Hd H. now destruct (expand_confined_x t R name fs t' e Hg Hn Hd H) as (_ & _ & H3). Qed.
+
+(* why refusing link entries is the safe behaviour: a guard that checks a link's target
+   lexically accepts "here -> ." followed by "up -> here/.." (textually the directory itself),
+   and the second link leads to the PARENT of the destination *)
+Definition guard_tree : tnode := TDir [("sb", TDir [("work", TDir [("dest", TDir []); ("secret", TFile "outside")])])].
+Definition guard_dest : list string := ["sb"; "work"; "dest"].
+
+Lemma lexical_link_guard_refuted :
+  let r1 := lexical_link_entry guard_tree guard_dest "here" "." in
+  let r2 := lexical_link_entry (fst r1) guard_dest "up" "here/.." in
+  snd r1 = None /\ snd r2 = None /\
+  tget (fst r2) (guard_dest ++ ["up"]) = Some (TLink "here/..") /\
+  c_walk (fst r2) (guard_dest ++ ["up"]) true = WAt ["sb"; "work"] (TDir [("dest", TDir [("here", TLink "."); ("up", TLink "here/..")]); ("secret", TFile "outside")]) /\
+  c_walk (fst r2) (guard_dest ++ ["up"; "secret"]) true = WAt ["sb"; "work"; "secret"] (TFile "outside") /\
+  link_resolves_inside (fst r2) guard_dest (guard_dest ++ ["up"]) = false /\
+  (* the single-entry attacks are refused by the same guard *)
+  snd (lexical_link_entry guard_tree guard_dest "up" "..") = Some XName /\
+  snd (lexical_link_entry guard_tree guard_dest "up" "/sb/work") = Some XName /\
+  snd (lexical_link_entry guard_tree guard_dest "up" "a/../../x") = Some XName.
+Proof. repeat split; vm_compute; reflexivity. Qed.
